@@ -22,6 +22,10 @@ func init() { engine.Register(c11{}) }
 
 func (c11) ID() string { return "C11" }
 
+// ProcessExitClass: the emulator ending the process is a violation of C11 (the harness stops a run
+// before an undefined opcode would execute, so no legitimate exit can occur).
+func (c11) ProcessExitClass() string { return "C11/process-exit" }
+
 func (c11) Budget(tier string) int {
 	if tier == "thorough" {
 		return 400000
@@ -249,8 +253,36 @@ func (c11) Execute(sc *engine.Scenario) *engine.Result {
 			}
 			_ = m.Map.DumpRAM()
 		default: // code
-			kind := r.Intn(3)
+			kind := r.Intn(4)
 			switch kind {
+			case 3:
+				// corners of defined behaviour: STOP in every joypad select state (a key event resumes),
+				// interrupt dispatch with the stack pointer on IE, on IF or wrapping round the address space
+				g := &progGen{r: r, base: lsCodeWRAM}
+				g.emit16(0x31, 0xdff0)
+				for i, n := 0, r.Range(2, 10); i < n; i++ {
+					switch r.Intn(3) {
+					case 0:
+						g.emit(0x3e, engine.Pick(r, []uint8{0x00, 0x10, 0x20, 0x30, r.Byte()}), 0xe0, 0x00)
+						g.emit(0x10, 0x00)
+						g.filler(r.Intn(4))
+					case 1:
+						g.emit16(0x31, engine.Pick(r, []uint16{0x0000, 0x0001, 0x0002, 0xff10, 0xff11, 0xff0f, 0xffff, 0xfffe, 0x8001, 0xfe01, 0xa001}))
+						g.emit(0x3e, 0x1f, 0xe0, 0xff)
+						g.emit(0x3e, r.Byte()&0x1f|1, 0xe0, 0x0f)
+						g.emit(0xfb)
+						g.filler(r.Range(1, 4))
+						g.emit16(0x31, 0xdff0)
+					default:
+						g.emit(0x3e, r.Byte(), 0xe0, engine.Pick(r, []uint8{0x00, 0x0f, 0xff, 0x40, 0x41, 0x07}))
+						g.emit(engine.Pick(r, []uint8{0x76, 0x00, 0xfb, 0xf3}))
+					}
+				}
+				g.emit16(0xc3, lsCodeWRAM+3)
+				for i, b := range g.code {
+					m.Write(lsCodeWRAM+uint16(i), b)
+				}
+				res.Probe("corner_program")
 			case 0:
 				code := r.Bytes(0x2000)
 				for i, b := range code {
